@@ -145,5 +145,5 @@ def check(ck):
 
     # ---- C12.7 constructor chain of the server classes ---------------------------------------------------------------
     common.check_base_constructors(ck, "C12.7", classes=[k for k in common.BASE_INITS if k.startswith("SimpleJSONRPCServer.")])
-    common.check_config_forwarding(ck, "C12.7")
-    ck.floor("C12.7", 10)
+    common.check_config_forwarding(ck, "C12.7", modules=("SimpleJSONRPCServer",))
+    ck.floor("C12.7", 8)
